@@ -58,7 +58,7 @@ def gen_body(rng, real):
     lines = []
     for k in range(n):
         if rng.random() < 0.35:
-            code = rng.choice([0, 0, 0, 0, 99, 99, 99, 100, 111, 64, 65, 70, 76, 77, 78, 112, 1, 2, 113, 255])
+            code = rng.choice([0, 0, 0, 0, 99, 99, 99, 100, 111, 64, 65, 70, 76, 77, 78, 112, 1, 2, 113, 255, 128, 192, 227, 228, 240])
             lines.append("|echo L%d >> trace; exit %d" % (k, code))
         else:
             lines.append(rng.choice(pool))
@@ -130,6 +130,9 @@ def main():
     directed = ["&f@x.example\n" + P(1, 99) + "\n./Maildir/\n", P(0, 99) + "\n&f@x.example\n", "f1@x.example\n" + P(1, 0) + "\nf2@y.example\n" + P(3, 99) + "\nf3@z.example\n",
                 "&f@x.example\n" + P(1, 100) + "\n", "&f@x.example\n" + P(1, 111) + "\n", "./Maildir/\n&f@x.example\n./mbox\n", P(0, 0) + "\n" + P(1, 99) + "\n" + P(2, 0) + "\n",
                 "+list\n&f@x.example\n", "+list\n./Maildir/\n", "&f@x.example\n+list\n" + P(2, 0) + "\n", "\n./Maildir/\n", "# c\n\n./Maildir/\n", "./Maildir/", "&f@x.example"]
+    # every exit status a program can have, followed by a delivery that must or must not happen
+    directed += [P(0, code) + "\n./Maildir/\n" for code in range(256)]
+    directed += ["&f@x.example\n" + P(1, code) + "\n./Maildir/\n" for code in (99, 227, 128, 228, 100, 111, 0)]
     for it in range((500 if ck.thorough else 160) + len(directed)):
         dash = "-"; ext = rng.choice(["a", "a-b", "list"])
         body = directed[it].encode() if it < len(directed) else gen_body(rng, True)
